@@ -302,6 +302,7 @@ pub fn gen_step_args(r: &mut Rng) -> (u64, u32, u128, u128, u128, bool, bool) {
     (rem, rate, liq, cur, tgt, ein, dir)
 }
 
+#[derive(Clone)]
 pub struct StepOut {
     pub amount_in: u64,
     pub amount_out: u64,
